@@ -242,14 +242,13 @@ def preconditions(pose, op):
         pts = op["points"] or {}
         okargs = all(n in names for n in comps) and all(p in h.components[names.index(n)].points for n in comps for p in pts.get(n, []))
         pre = len(comps) > 0
-        nidx = sum(len(pts[n]) if n in pts else len(h.components[names.index(n)].points) for n in comps) if okargs else 0
-        return pre, (True if (pre and okargs and (be != 2 or nidx > 0)) else None)
+        return pre, (True if (pre and okargs) else None)
     if k == "remove_components":
         keep = [n for n in names if n not in op["components"]]
         pre = len(keep) > 0
-        return pre, (True if pre and be != 2 else None)
+        return pre, (True if pre else None)
     if k == "bbox":
-        return True, (True if (be == 0 and len(names) > 0 and all(len(cc.points) > 0 for cc in h.components)) else None)
+        return True, (True if (be == 0 and len(names) > 0) else None)
     if k == "interpolate":
         nf = op["new_fps"] if op["new_fps"] is not None else pose.body.fps
         return True, (True if (be == 0 and F >= 2 and P >= 1 and T >= 1 and pose.body.fps > 0 and nf > 0) else None)
@@ -259,7 +258,7 @@ def preconditions(pose, op):
         ok = all(0 <= i < F for i in op["indexes"]) and (be != 2 or len(op["indexes"]) > 0)
         return True, (True if ok else None)
     if k in ("frame_dropout_uniform", "frame_dropout_normal"):
-        return True, (True if (be != 2 or F >= 1) else None)     # TF's own dropout on an empty body is C16's (F10)
+        return True, True
     if k == "flip":
         return True, (True if be == 0 and 0 <= op["axis"] < D else None)
     if k == "augment2d":
@@ -622,7 +621,7 @@ class C12(common.Prop):
         return case
 
     def gen_cases(self, rng, tier):
-        n = 900 if tier == "quick" else 40000
+        n = 2500 if tier == "quick" else 40000
         maxlen = 8 if tier == "quick" else 20
         for i in range(n):
             r = rng.random()
